@@ -105,6 +105,60 @@ PROPS = {
                 "Non-trivial: byte strings that are negative or non-canonical; integers outside the inline range; histories with restore+substring.",
         "assumptions": COMMON_ASSUMPTIONS,
     },
+    "C15": {
+        "variants": REL,
+        "budget_s": (30, 1500),
+        "min_nontrivial": {"quick": 2000, "thorough": 20000},
+        "must_observe": ["converse_decodable_and_canonical", "boundary_atom_len_0x2000", "boundary_atom_len_0x100000", "boundary_atom_len_0x8000000"],
+        "rule": "Trees/DAGs of all generator shapes (random, 100k-deep spines, doubling DAGs, wide lists, repeats) with atoms at every length-prefix boundary (0x3f/0x40, 0x1fff/0x2000, 0xfffff/0x100000 and, as single directed atoms, "
+                "0x7ffffff/0x8000000/0x8000001 = 128 MiB), materialised with random atom representations: node_to_bytes_limit must equal the harness's independent serialiser, decode to the model tree, pass is_canonical_serialization; "
+                "trusted/untrusted length functions (also with trailing bytes) and the ObjectCache length must equal the byte count. Converse: mutated serialisations and noise that decode AND are judged canonical must re-serialise to the input. "
+                "Thorough tier: write_atom prefixes for 2^32..2^34 byte slices via a counting sink. Non-trivial: tree has a pair or a boundary-size atom.",
+        "assumptions": COMMON_ASSUMPTIONS + ["an Allocator cannot hold atoms >= 4 GiB; that part of the quantifier is only reached at the write_atom level"],
+    },
+    "C16": {
+        "variants": {"quick": ["rel", "asan"], "thorough": ["rel", "asan", "miri"]},
+        "budget_s": (40, 1500),
+        "total": True,
+        "exhaustive_key": "exhaustive_all_bytes",
+        "min_nontrivial": {"quick": 5000, "thorough": 50000},
+        "must_observe": ["exhaustive_all_bytes", "exhaustive_dense_alphabet", "accepted_by_all", "rejected_by_all"],
+        "rule": "EXHAUSTIVE: every byte string of length <=2 (quick) / <=3 (thorough) and every string over the dense token alphabet {ff,fe,80,00,01,7f,81,bf,c0,fb,fc,fd} up to length 6 (quick) / 7 (thorough); then valid serialisations mutated at token level, "
+                "inflated length prefixes, 100k-deep nesting and noise. Per input: node_from_stream, parse_triples(hashes on) and tree_hash_from_stream must all accept or all reject, consume the same length, describe the same tree (rebuilt from the triples) and "
+                "carry the model tree hash for every node; peak heap requested per decoder (counting global allocator) <= 2 MiB + 64*len; is_canonical_serialization == (whole input consumed AND re-serialisation reproduces it). ASan build repeats the workload. "
+                "Non-trivial: input accepted by the decoders.",
+        "assumptions": COMMON_ASSUMPTIONS,
+    },
+    "C17": {
+        "variants": {"quick": ["rel"], "thorough": ["rel", "miri"]},
+        "budget_s": (30, 1500),
+        "min_nontrivial": {"quick": 2000, "thorough": 20000},
+        "must_observe": ["salted_serializations", "bytes_saved_by_backrefs"],
+        "rule": "Trees with many repeated sub-trees at varying depths, repeated big atoms, and 'threshold' trees (a repeated sub-tree of serialized length 2..8 at stack distance 0..70, i.e. where a back-reference stops paying and where paths cross 1->2->3 byte "
+                "encodings). node_to_bytes_backrefs output must decode (node_from_bytes_backrefs) to the model tree, be canonical, be no longer than the classic serialisation, re-serialise identically after decoding, and be byte-identical under 8 hash salts forced "
+                "through the verif-hooks salt override (0, !0, single-bit differences, ...). Non-trivial: output is shorter than classic (a back-reference was emitted).",
+        "assumptions": COMMON_ASSUMPTIONS + ["salt override hook pins RandomState/TreeCache salts"],
+    },
+    "C18": {
+        "variants": {"quick": ["rel", "dbg", "asan"], "thorough": ["rel", "dbg", "asan", "miri"]},
+        "budget_s": (40, 1500),
+        "total": True,
+        "min_nontrivial": {"quick": 5000, "thorough": 50000},
+        "must_observe": ["exhaustive_dense_alphabet", "accepted_by_all", "rejected_inputs_with_backref_token"],
+        "rule": "EXHAUSTIVE strings over the dense token alphabet up to length 6 (quick) / 7 (thorough); valid back-reference serialisations whose paths are rewritten (into the stack itself, into materialised stack lists, into atoms, past the end, leading zero bytes, "
+                "empty path), inserted fresh back-references, byte-level mutations. Per input: node_from_bytes_backrefs and node_from_bytes_backrefs_old must both accept or reject, give identical trees and identical pair_count; serialized_length_from_bytes must accept "
+                "exactly those inputs and its value L must be the consumed length (prefix of length L decodes to the same tree, prefix L-1 does not decode). dbg build catches ghost-pair debug_asserts, ASan/Miri memory errors. Non-trivial: accepted input containing a 0xfe token.",
+        "assumptions": COMMON_ASSUMPTIONS,
+    },
+    "C29": {
+        "variants": REL,
+        "budget_s": (30, 1200),
+        "min_nontrivial": {"quick": 2000, "thorough": 20000},
+        "must_observe": ["limit_on_token_boundary"],
+        "rule": "Trees incl. threshold trees and atoms at prefix boundaries; for serializations <= 300 bytes EVERY limit 0..=len+1, otherwise every token boundary (cons markers, length prefixes) +-1 plus random limits: node_to_bytes_limit / node_to_bytes_backrefs_limit must "
+                "return exactly the unlimited bytes when len<=L and Err(OutOfMemory) otherwise. Non-trivial: a tree whose whole limit sweep was checked.",
+        "assumptions": COMMON_ASSUMPTIONS,
+    },
     "C25": {
         "variants": {"quick": ["rel", "dbg", "asan"], "thorough": ["rel", "dbg", "asan", "miri"]},
         "budget_s": (25, 1200),
